@@ -37,10 +37,10 @@ func checkDefs() map[string]CheckDef {
 	add(CheckDef{
 		ID: "C17",
 		Obligations: []Obligation{
-			{Pkg: "internal/verifh/c17", Harness: "VerifC17Injective", Quick: map[string]int{"K": 1, "exact": 1, "extraParts": 1}, Thor: map[string]int{"extraParts": 2}, TV: 10},
+			{Pkg: "internal/verifh/c17", Harness: "VerifC17Injective", Quick: map[string]int{"K": 1, "exact": 1, "extraParts": 1}, TV: 10},
 			{Pkg: "internal/verifh/c17", Harness: "VerifC17Injective", Quick: map[string]int{"K": 2, "exact": 1, "extraParts": 2}, OnlyT: true},
 			{Pkg: "internal/verifh/c17", Harness: "VerifC17Independent", Quick: map[string]int{"K": 1, "exact": 1}, TV: 10},
-			{Pkg: "internal/verifh/c17", Harness: "VerifC17CloneRoundTrip", Quick: map[string]int{"K": 1, "exact": 1}, Thor: map[string]int{"exact": 0}, TV: 10},
+			{Pkg: "internal/verifh/c17", Harness: "VerifC17CloneRoundTrip", Quick: map[string]int{"K": 1, "exact": 1}, TV: 10},
 			{Pkg: "internal/verifh/c17", Harness: "VerifC17Validate", TV: 10},
 			{Pkg: "internal/verifh/c17", Harness: "VerifC17DecodeValidates", TV: 10, Note: "Params.Decode refuses well-formed encodings of invalid parameters (zero duration, address-less participant, one participant, 33-byte nonce) without panicking"},
 			{Pkg: "internal/verifh/c17", Harness: "VerifC17StateID", Quick: map[string]int{"K": 1, "exact": 1}, TV: 5},
